@@ -89,10 +89,11 @@ macro "rtsimp" "[" ts:Lean.Parser.Tactic.simpLemma,* "]" : tactic =>
       rprims_exc, rprims_getState, rprims_setState, rprims_getActiveTimer, rprims_setActiveTimer, rprims_timersEnabled, rprims_setTimersEnabled, rprims_durIsNone, rprims_durEqInf, rprims_durationOf, rprims_timePeriod, rprims_cmpZero, rprims_callLater, rprims_cancelled, rprims_cancel, rprims_timerWhen, rprims_loopToUnix, rprims_event, rprims_superStop, rprims_superStart, rprims_getSdata, rprims_setSdata, rprims_istateLen2, rprims_istatePad, rprims_istateUnpack, rprims_checkState, rprims_remaining, rprims_timedEvent, rprims_calcOutput, rprims_isUndef, rprims_setOutput, cmpInt, $ts,*])
 
 /-- `_restore_state` has restored the state iff it returned normally with the output set; when it returns
-    without restoring (expired state) it must have left the block untouched -/
+    without restoring (expired state) it must have left the block untouched; when it raises (the error is
+    suppressed and the block is initialised by other means) it must not have started a timer -/
 def restoreOutcome (r : Persist.Dyn × Except Unit Unit) : Option Persist.Dyn :=
   match r.2 with
   | .ok _ => if r.1.inited then some r.1 else if r.1 = {} then none else some r.1
-  | .error _ => none
+  | .error _ => if r.1.timer.isSome then some r.1 else none
 
 end Edzed.TrTie
